@@ -811,6 +811,15 @@ class Engine:
                 return la.scale(lb.c)
             if not la.t:
                 return lb.scale(la.c)
+            # (a / b) * b = a - a % b: between a - b + 1 and a
+            for x, y in ((la, lb), (lb, la)):
+                if len(x.t) == 1 and x.c == 0 and x.t[0][1] == 1:
+                    ent = st.divq.get(("v", x.t[0][0]))
+                    if ent is not None and ent[1] == y:
+                        m = Lin.sym(self.new_sym("qmul", 0, INF))
+                        st.add(m - ent[0])
+                        st.add(ent[0] - m - y + 1)
+                        return m
             f = self.new_sym("mul")
             ua, ub_, lwa, lwb = st.upper(la), st.upper(lb), st.lower(la), st.lower(lb)
             if None not in (ua, ub_, lwa, lwb) and INF not in (ua, ub_) and -INF not in (lwa, lwb):
@@ -833,6 +842,9 @@ class Engine:
             if st.entails(-la):
                 f = self.new_sym("shr", 0, INF)
                 st.add(Lin.sym(f) - la)
+                if op == "Div" and st.entails(Lin.const(1) - lb):
+                    # remembered for `(a / b) * b` (see Mul): the product is a minus the remainder
+                    st.divq[("v", f)] = (la, lb)
                 return Lin.sym(f)
             return None
         if op == "Rem":
@@ -1487,6 +1499,12 @@ class Interp:
                 if s in heads:
                     visits[s] = visits.get(s, 0) + 1
                     new = self.normalize_w(allst, jid, widen=visits[s] > 2)
+                    tb = self.trip_bounds(fr, s, preds, edge_out)
+                    for l_, ub_ in tb.items():
+                        for st_ in new:
+                            v_ = st_.env.get((("L", fr.id, l_),))
+                            if v_ is not None and v_[0] == "int" and not st_.dead:
+                                st_.add(v_[1] - ub_)
                 else:
                     new = self.normalize_w(allst, jid, widen=False)
                 if states_changed(inst.get(s), new):
@@ -1497,6 +1515,72 @@ class Interp:
             out += exits[b]
         fr_inst = inst
         return out, fr_inst
+
+    def trip_bounds(self, fr, head, preds, edge_out):
+        """Upper bounds of the step counters of a `while v != 0 { ..; v >>= c }` loop (gsa/loops.py): an unsigned value
+        below 2^b that is shifted right by c once per iteration is zero after ceil(b / c) iterations (divided by c:
+        after floor(log_c) + 1), so a counter stepped by +s once per iteration stays below init + s * trips.  The loop
+        must be a single straight body (its only branch is the zero test at the head)."""
+        body = fr.body
+        li = self._loop_info.get(body.path)
+        if li is None:
+            from . import loops as loopsm
+            li = self._loop_info[body.path] = loopsm.analyse(body)
+        info = li.get(head)
+        if not info or not info["zero_exit"] or not info["step_counters"]:
+            return {}
+        if sum(1 for b in info["blocks"] if body.blocks[b].term and body.blocks[b].term["k"] == "switch") != 1:
+            return {}
+        entry = [st for p in preds[head] if p not in info["blocks"] for st in edge_out.get((p, head), []) if not st.dead]
+        if not entry:
+            return {}
+        trips = None
+        for v in info["zero_exit"]:
+            kind, signed = info["consumed"][v]
+            cs = info["amounts"].get(v) or []
+            if signed or len(cs) != 1:
+                continue
+            ub = 0
+            for st in entry:
+                x = st.env.get((("L", fr.id, v),))
+                u = st.upper(x[1]) if x is not None and x[0] == "int" else INF
+                if u is None:
+                    continue
+                ub = max(ub, u)
+            if ub == INF:
+                continue
+            ub = max(int(ub), 0)
+            if kind == "shr":
+                t = -(-ub.bit_length() // cs[0])
+            else:
+                t, w = 0, ub
+                while w > 0 and cs[0] > 1:
+                    w //= cs[0]
+                    t += 1
+                if cs[0] <= 1:
+                    continue
+            trips = t if trips is None else min(trips, t)
+        if trips is None:
+            return {}
+        out = {}
+        for l in info["step_counters"]:
+            st_ = info["steps"].get(l) or []
+            if len(st_) != 1 or st_[0] <= 0:
+                continue
+            ini = 0
+            ok = True
+            for st in entry:
+                x = st.env.get((("L", fr.id, l),))
+                u = st.upper(x[1]) if x is not None and x[0] == "int" else INF
+                if u is None:
+                    continue
+                if u == INF:
+                    ok = False
+                    break
+                ini = max(ini, int(u))
+            if ok:
+                out[l] = ini + st_[0] * trips
+        return out
 
     def normalize_w(self, states, jid, widen):
         states = [s for s in states if not s.dead]
@@ -1987,6 +2071,7 @@ class NumEngine(Interp, Engine):
     def __init__(self, facts, contracts, invariants=None, verbose=False):
         Engine.__init__(self, facts, contracts, invariants, verbose)
         self.tmpl_store = {}
+        self._loop_info = {}
         self.cast_facts = {}
         self.cur_block = None
         self.cur_stmt = None
